@@ -62,6 +62,8 @@ class Heap:
         self.dv: dict[str, Any] = {}       # dict kind -> Array Int (Array K V)
         self.dh0: dict[str, Any] = {}
         self.dv0: dict[str, Any] = {}
+        self.sets = z3.Const("SETC", z3.ArraySort(z3.IntSort(), z3.ArraySort(z3.IntSort(), z3.BoolSort())))
+        self.sets0 = self.sets
         self.alloc0 = z3.Int("alloc0")
         self.alloc_base = self.alloc0     # current base (advanced past callee allocations)
         self.nalloc = 0
@@ -72,7 +74,14 @@ class Heap:
         h.lists, h.lists0 = dict(self.lists), self.lists0
         h.dh, h.dv, h.dh0, h.dv0 = dict(self.dh), dict(self.dv), self.dh0, self.dv0
         h.alloc0, h.nalloc, h.alloc_base = self.alloc0, self.nalloc, self.alloc_base
+        h.sets, h.sets0 = self.sets, self.sets0
         return h
+
+    def set_get(self, st):
+        return z3.Select(self.sets, st.id)
+
+    def set_put(self, st, content):
+        self.sets = z3.Store(self.sets, st.id, content)
 
     def new_id(self):
         self.nalloc += 1
@@ -810,6 +819,8 @@ class Engine:
             return z3.Contains(seq, z3.Unit(self.elem_term(path, container, item)))
         if isinstance(container, SDict):
             return z3.Select(path.heap.dict_has(container), self.key_term(path, container, item))
+        if isinstance(container, SSet) and isinstance(item, SRef):
+            return z3.Select(path.heap.set_get(container), item.t)
         raise EngineError(f"'in' on {type(container).__name__} (line {e.lineno})")
 
     def key_term(self, path, d: SDict, k: Val):
@@ -1010,6 +1021,10 @@ class Engine:
             if base0 is not None and o is not None:
                 path.assume(z3.And(z3.Select(base0, o) < path.heap.alloc0, z3.Select(base0, o) > 0))
             return SDict(t, parts[1] if len(parts) > 1 else "str", ":".join(parts[2:]) if len(parts) > 2 else "list", dflt="list")
+        if k == "set":
+            if name is not None and o is not None and name in path.heap.f0:
+                path.assume(z3.And(z3.Select(path.heap.f0[name], o) < path.heap.alloc0, z3.Select(path.heap.f0[name], o) > 0))
+            return SSet(t)
         if k == "opaque":
             return SOpaque(parts[1] if len(parts) > 1 else name, t)
         raise EngineError(f"field kind {kind}")
@@ -1040,6 +1055,8 @@ class Engine:
         if k == "list" and isinstance(v, SConst) and isinstance(v.py, tuple):
             return self.new_list(path, [SConst(x) for x in v.py], elem=kind.split(":", 1)[1] if ":" in kind else "str").id
         if k in ("dict", "ddict") and isinstance(v, SDict):
+            return v.id
+        if k == "set" and isinstance(v, SSet):
             return v.id
         if k == "opaque":
             if isinstance(v, SOpaque) and v.t is not None:
@@ -1103,6 +1120,10 @@ class Engine:
             return SInt(z3.Length(path.heap.list_get(v)))
         if isinstance(v, SChar):
             return SInt(z3.IntVal(1))
+        if isinstance(v, SSet):
+            c = CARD(path.heap.set_get(v))
+            path.assume(c >= 0)
+            return SInt(c)
         raise EngineError(f"len of {type(v).__name__}")
 
     def bi_str(self, path, e):
@@ -1112,6 +1133,55 @@ class Engine:
         if isinstance(v, (SStr, SConst)):
             return SStr(self.to_str(path, v))
         raise EngineError("str() of " + type(v).__name__)
+
+    def bi_set(self, path, e):
+        if e.args:
+            raise EngineError("set(iterable)")
+        st = SSet(path.heap.new_id())
+        empty = z3.K(z3.IntSort(), z3.BoolVal(False))
+        path.heap.set_put(st, empty)
+        path.assume(CARD(empty) == 0)
+        return st
+
+    def m_SSet_add(self, path, st, e):
+        v = self.ev(path, e.args[0])
+        if not isinstance(v, SRef):
+            raise EngineError("set.add of a non-object")
+        old = path.heap.set_get(st)
+        new = z3.Store(old, v.t, z3.BoolVal(True))
+        path.assume(CARD(new) == CARD(old) + z3.If(z3.Select(old, v.t), 0, 1))
+        path.heap.set_put(st, new)
+        return SNone()
+
+    def m_SSet_update(self, path, st, e):
+        o = self.ev(path, e.args[0])
+        if not isinstance(o, SSet):
+            raise EngineError("set.update with a non-set")
+        a, b = path.heap.set_get(st), path.heap.set_get(o)
+        new = map_or(a, b)
+        path.assume(z3.And(CARD(new) >= CARD(a), CARD(new) >= CARD(b), CARD(new) <= CARD(a) + CARD(b)))
+        path.heap.set_put(st, new)
+        return SNone()
+
+    def bi_sorted(self, path, e):
+        v = self.ev(path, e.args[0])
+        if isinstance(v, SSet):
+            # some enumeration of the set: a fresh sequence of its members (every element read carries membership)
+            lst = SList(path.heap.new_id(), "ref")
+            seq = fresh("sorted", z3.SeqSort(z3.IntSort()))
+            path.heap.list_set(lst, seq)
+            path.assume(z3.Length(seq) == CARD(path.heap.set_get(v)))
+            lst.members_of = v
+            return lst
+        if isinstance(v, SList):
+            lst = SList(path.heap.new_id(), v.elem, v.base)
+            path.heap.list_set(lst, fresh("sorted", z3.SeqSort(elem_sort(v.elem))))
+            path.assume(z3.Length(path.heap.list_get(lst)) == z3.Length(path.heap.list_get(v)))
+            return lst
+        raise EngineError("sorted() of " + type(v).__name__)
+
+    def ev_DictComp(self, path, e):
+        return SOpaque("dict")       # a pure comprehension whose value the contracts never inspect
 
     def bi_StringIO(self, path, e):
         """io.StringIO() used as a character accumulator: modelled as a list of code points"""
